@@ -301,16 +301,16 @@ pub fn check_lists(
     want: &RefCp,
     env: Env,
 ) -> Option<(String, String)> {
-    if real.timing_points != want.t
-        || real.difficulty_points != want.d
-        || real.effect_points != want.e
-        || real.sample_points != want.s
+    if super::gen::lists_differ(&real.timing_points, &want.t)
+        || super::gen::lists_differ(&real.difficulty_points, &want.d)
+        || super::gen::lists_differ(&real.effect_points, &want.e)
+        || super::gen::lists_differ(&real.sample_points, &want.s)
     {
-        let which = if real.timing_points != want.t {
+        let which = if super::gen::lists_differ(&real.timing_points, &want.t) {
             "timing"
-        } else if real.difficulty_points != want.d {
+        } else if super::gen::lists_differ(&real.difficulty_points, &want.d) {
             "difficulty"
-        } else if real.effect_points != want.e {
+        } else if super::gen::lists_differ(&real.effect_points, &want.e) {
             "effect"
         } else {
             "sample"
